@@ -52,9 +52,10 @@ def run_pdf(shard, ctx):
             tag = ("c13", kind, D, R)
             Sp = objs.spd_batch(D, R, vi, seed, tag + ("p",), diag=diag)
             mp_ = objs.vec_batch(D, R, vi, seed, tag + ("p",))
-            if ctx.case(dict(what="entropy", R=R, vi=vi)):
-                p = objs.mk_pdf(kind, Sp, mp_)
-                with ctx.guard("entropy.call"):
+            for prep, mkp in objs.pdf_variants(kind, Sp, mp_, which=("fresh", "sliced_neg", "updated", "Sigma+Lambda+lndet") if vi == 0 else ("fresh",)):
+              if ctx.case(dict(what="entropy", R=R, vi=vi, prep=prep)):
+                with ctx.guard("entropy.call", dict(prep=prep)):
+                    p = mkp()
                     H = np.asarray(p.entropy())
                     ctx.close("entropy.value", H, np.array([rm.entropy(Sp[r]) for r in range(R)]))
                     if D <= 2:
